@@ -1292,15 +1292,17 @@ def forwarding_oracle(res, cname, g, form, pos, kw, intended, pr, spec, system='
                     'the call handed on by the untrained getter does not bind to thermodynamics.%s: %s (the same call made on the thermodynamics binds)' % (g, ' '.join(err)),
                     desc, observed='TypeError ' + ' '.join(err), required={n: tokof(v) for n, v in intended.items()})
         return
-    for n, v in intended.items():
+    for n, v in intended.items():       # in the order of the signature; the first argument that goes astray names the class (the rest of a shifted call follows from it)
         if n not in bound:
             res.violate('untrained-%s.%s-drops-argument-%s' % (cname, g, n),
                         'the caller supplied %s=%s; the untrained branch does not hand it on, thermodynamics.%s uses its default' % (n, tokof(v), g), desc,
                         observed='not received', required=tokof(v))
+            return
         elif not same_arg(bound[n], v):
             res.violate('untrained-%s.%s-changes-argument-%s' % (cname, g, n),
                         'the caller supplied %s=%s; thermodynamics.%s received %s' % (n, tokof(v), g, tokof(bound[n])), desc,
                         observed=tokof(bound[n]), required=tokof(v))
+            return
     named = dict(spec['named'])
     for n, v in bound.items():
         if n in intended:
@@ -1422,7 +1424,7 @@ def check_untrained_multiphase(res, rng, quick=True):
     gE = np.array([2000.0, 1000.0, 500.0]) * round(rng.uniform(0.7, 1.3), 3)
     spy = ArgSpy(th)
     s = cls(spy)
-    base = dict(system='Al-Mg-Si (ALMGSI_DB), phases %s' % list(th.phases), surrogate=cname, x=x.tolist(), T=T, R=R.tolist(), gExtra=gE.tolist())
+    base = dict(thermodynamics='Al-Mg-Si (ALMGSI_DB), phases %s' % list(th.phases), surrogate=cname, x=x.tolist(), T=T, R=R.tolist(), gExtra=gE.tolist())
     getters = surrogate_getters(cls)
 
     def one(stage, g, args, kw, kind, trained_here):
